@@ -223,19 +223,46 @@ def rule_coverage(R):
                  "property that will be serialised has to be validated" % (v, sorted(w), sorted(own.get(v, []))), where=vf.span)
     else:
         # iterator based: all(iter(self), |p| p.is_ok_and(|p| p.is_valid_for(context)))
-        t = peel(vf.local_term(0))
-        ok = is_call(t, "Iterator::all") and any(is_call(x, "Properties::<'a>::iter", "iter", "iter_inner") and chain(x[3][0])[0] == ("param", "self")
-                                                 for x in walk(t[3][0]) if x[0] == "call")
-        # the closure chain reaches is_valid_for with the caller's context
-        reach = f.reachable_bodies([vf.name])
+        # read as a loop (also what `.all(..)` stands for): a fresh self.iter(); every element passes is_valid_for(context)
+        # before the next one is fetched; a failing element ends the loop; `true` only on exhaustion
         ivf = roles.method(f, PROP, "is_valid_for")
-        ok = ok and ivf.name in reach
+        nexts = [c for c in vf.calls.values() if c.bb in vf.reachable and c.is_("core::iter::Iterator::next")]
+        ok = len(nexts) == 1
         ctx_ok = False
-        for n in reach:
-            b = f.bodies[n]
-            for c in outq.calls_to(f, b, ivf):
-                r, names = chain(b.operand_term(c.args[1]))
+        if ok:
+            nx = nexts[0]
+            fresh = any(is_call(x, "Properties::<'a>::iter", "iter", "iter_inner") and chain(x[3][0])[0] == ("param", "self")
+                        for x in walk(vf.operand_term(nx.args[0])) if x[0] == "call")
+            sw = None
+            for bb in vf.switches:
+                si = vf.switch_info(bb)
+                if si["enum"] == "core::option::Option" and any(a[0] == "call" and a[1] == nx.bb for a in phi_alts(peel(si["subject"]))):
+                    sw = si
+            ivc = outq.calls_to(f, vf, ivf)
+            for c in ivc:
+                r, names = chain(vf.operand_term(c.args[1]))
                 ctx_ok = ctx_ok or (r[0] == "param" and "context" in r[1])
+            ok = fresh and sw is not None and bool(ivc) and sw["edges"].get("Some") is not None and sw["edges"].get("None") is not None
+            if ok:
+                some_t, none_t = sw["edges"]["Some"], sw["edges"]["None"]
+                ok = vf.must_pass([some_t], [nx.bb], via_blocks=[c.bb for c in ivc])[0]
+                # a rejected element is not skipped
+                for c in ivc:
+                    for si in vf.result_switches(lambda x, c=c: peel(x)[0] == "call" and peel(x)[1] == c.bb):
+                        fe = si["edges"].get(False)
+                        if fe is not None and nx.bb in vf.reach([fe]):
+                            ok = False
+                # `true` only once the iteration is exhausted
+                for lf in paths.explore(vf, 0, lambda t: False, lambda b, x: False):
+                    if lf["kind"] != "return":
+                        continue
+                    v = paths.value_on_path(vf, lf["path"], 0)
+                    if v is not None and v[0] == "const" and v[2] == 1:
+                        p_ = lf["path"]
+                        if not any(p_[i] == sw["bb"] and p_[i + 1] == none_t for i in range(len(p_) - 1)):
+                            ok = False
+                    elif v is None or not (v[0] == "const" and v[2] == 0):
+                        ok = False
         R.ob("coverage/valid_for/iterates-all", ok and ctx_ok,
              "Properties::valid_for applies is_valid_for(context) to every element of self.iter()", where=vf.span)
         it = [b for b in f.bodies.values() if b.kind == "assoc_fn" and b.fn_name == "iter_inner" and b.self_ty and b.self_ty.startswith(PROPS)]
